@@ -39,6 +39,43 @@ def A(f, variant, sig, p=None, tier="quick", cost=1.0):
             "eff": "%s|%s|%s" % (f, "p0" if p == "dflt" else p, sig)}
 
 
+# the quick tier's alphabet (44 calls); the thorough tier uses every entry below
+QUICK = {
+    "proximity|dflt|f8n", "proximity|v1|f8n", "proximity|v3|f8n", "proximity|v4|f8n", "proximity|v3|f8d",
+    "proximity|dflt|f4nBig", "allocation|v1|f8n", "direction|v3|f8n",
+    "focal_apply|dflt|f8n", "focal_apply|v2|f4nBig", "focal_apply|dflt|f4nBig", "focal_apply|dflt|f4dBig",
+    "convolution_2d|dflt|f4n", "focal_mean|dflt|f8n", "focal_mean|v2|f8n", "focal_stats|v1|f4n",
+    "zonal_stats|dflt|f8n", "zonal_stats|p0|f8n", "zonal_stats|v2|f8n", "zonal_stats|dflt|f8d", "zonal_crosstab|dflt|i4n",
+    "zonal_apply|dflt|f8n", "trim|dflt|f8n", "regions|dflt|f8n",
+    "quantile|dflt|f8n", "quantile|v1|f8n", "reclassify|dflt|f8n", "binary|v1|i4n", "natural_breaks|dflt|f8n",
+    "slope|dflt|f4n", "slope|dflt|i4n", "slope|dflt|f4nBig", "slope|dflt|f4d",
+    "polygonize|dflt|i4n", "polygonize|dflt|f8n", "a_star_search|dflt|f8n", "a_star_search|v1|f8n",
+    "perlin|dflt|f4n", "perlin|p0|f4n", "perlin|v2|f4n", "generate_terrain|dflt|f8n", "bump|dflt|f8n",
+    "local_cell_stats|dflt|i4n", "local_cell_stats|v1|i4n",
+}
+
+# functions that share module level state (compiled helpers, closures, defaults, tables, the global RNG)
+FAMILY = {"proximity": "proximity", "allocation": "proximity", "direction": "proximity",
+          "focal_mean": "focal", "focal_apply": "focal", "focal_stats": "focal", "hotspots": "focal", "convolution_2d": "focal",
+          "zonal_stats": "zonal", "zonal_crosstab": "zonal", "zonal_apply": "zonal", "regions": "zonal", "trim": "zonal",
+          "quantile": "classify", "natural_breaks": "classify", "reclassify": "classify", "binary": "classify",
+          "equal_interval": "classify", "perlin": "rng", "generate_terrain": "rng", "bump": "rng"}
+
+
+def reference_groups(calls):
+    """quick tier: reference interpreters shared by calls of DIFFERENT families - a process holds at most one call of each
+    family (RNG users first), so every reference is still the first call into its module in a fresh interpreter"""
+    fams = {}
+    for a in sorted(calls, key=lambda a: a["c"]):
+        fams.setdefault(FAMILY.get(a["f"], a["f"]), []).append(a)
+    n = max(len(v) for v in fams.values())
+    groups = [[] for _ in range(n)]
+    for fam in sorted(fams, key=lambda k: (k != "rng", k)):
+        for i, a in enumerate(fams[fam]):
+            groups[i].append(a)
+    return [g for g in groups if g]
+
+
 def alphabet(tier):
     al = [
         # jitted closure over target_values / max_distance / distance_metric / process_mode
@@ -81,7 +118,7 @@ def alphabet(tier):
         A("true_color", 0, F4N, tier="thorough"), A("ndvi", 0, F4N, tier="thorough"), A("ndvi", 0, F8D, tier="thorough"),
     ]
     if tier != "thorough":
-        al = [a for a in al if a["tier"] == "quick"]
+        al = [a for a in al if a["c"] in QUICK]
     ids = [a["c"] for a in al]
     assert len(ids) == len(set(ids)), "duplicate call ids"
     return al
@@ -154,27 +191,30 @@ def run_histories(ctx, hists, al_by_key, threads):
     return out
 
 
-def run_all(ctx, fresh_calls, repeat, hists, threads, al_by_key):
+def run_all(ctx, fresh_calls, repeat, hists, threads, al_by_key, grouped=False):
     """fresh-interpreter references and history replays in ONE 16-process pool (longest first).
     -> (cache {c: digest}, history results in the order of `hists`)"""
     fresh_calls = sorted(fresh_calls, key=lambda a: -a["cost"])
-    fparts = [[{"hid": -1, "threads": 1, "calls": [a]}] for _ in range(repeat) for a in fresh_calls]
+    if grouped:
+        fparts = [[{"hid": -1, "threads": 1, "calls": g}] for g in reference_groups(fresh_calls)]
+    else:
+        fparts = [[{"hid": -1, "threads": 1, "calls": [a]}] for _ in range(repeat) for a in fresh_calls]
     hjobs = [{"hid": k, "threads": threads[k], "calls": [al_by_key[x] for x in h]} for k, h in enumerate(hists)]
     parts = [[j] for j in hjobs] + fparts          # histories are the long jobs: start them first
     envs = [{"NUMBA_NUM_THREADS": str(j["threads"])} for j in hjobs] + [{"NUMBA_NUM_THREADS": "1"}] * len(fparts)
     res = alias_run.run_pool("hist_worker", parts, envs=envs)
     cache = {}
     for part, r in zip(parts[len(hjobs):], res[len(hjobs):]):
-        a, r = part[0]["calls"][0], r[0]
+        r = r[0]
         if "machinery_error" in r:
-            raise core.MachineryError("hist_worker (fresh) failed on %s:\n%s" % (a["c"], r["machinery_error"]))
-        e = r["events"][0]
-        d = ("raised:" + e["err"].split(":")[0]) if e["raised"] else e["digest"]
-        if a["c"] in cache and cache[a["c"]] != d and a["f"] not in UNSEEDED:
-            ctx.violation("%s:fresh-interpreters-disagree" % a["f"], "result_differs_from_fresh_interpreter",
-                          {"call": a, "digests": [cache[a["c"]], d]}, "two fresh interpreters, same call")
-        cache[a["c"]] = d
-        ctx.evaluations += 1
+            raise core.MachineryError("hist_worker (reference) failed on %s:\n%s" % ([a["c"] for a in part[0]["calls"]], r["machinery_error"]))
+        for a, e in zip(part[0]["calls"], r["events"]):
+            d = ("raised:" + e["err"].split(":")[0]) if e["raised"] else e["digest"]
+            if a["c"] in cache and cache[a["c"]] != d and a["f"] not in UNSEEDED:
+                ctx.violation("%s:fresh-interpreters-disagree" % a["f"], "result_differs_from_fresh_interpreter",
+                              {"call": a, "digests": [cache[a["c"]], d]}, "two fresh interpreters, same call")
+            cache[a["c"]] = d
+            ctx.evaluations += 1
     out = []
     for j, r in zip(hjobs, res[:len(hjobs)]):
         r = r[0]
@@ -290,17 +330,29 @@ def replay_part(ctx, rng, focus):
         al = [a for a in al if a["f"] in focus or a["c"] in ("bump|dflt|f8n", "slope|dflt|f4n", "binary|dflt|f8n")]
     by_key = {(a["f"], a["p"], a["sig"]): a for a in al}
     by_c = {a["c"]: a for a in al}
-    depth = ctx.pick(14, 20)
-    nsim = ctx.pick(16, 240)
-    files = ctx.simulate("History", dict(spec="Spec", constants=concrete_constants(al, depth)), "histories",
-                         num=nsim, depth=depth + 1)
-    hists = []
-    for fp in files:
-        h = parse_hist_state(open(fp).read())
-        if h and all(x in by_key for x in h):
-            hists.append(h)
-    if len(hists) < nsim // 2:
-        raise core.MachineryError("only %d histories parsed from %d simulated behaviours" % (len(hists), len(files)))
+    depth = ctx.pick(11, 20)
+    nsim = ctx.pick(10, 240)
+
+    def simulate(alpha, n, d, name):
+        files = ctx.simulate("History", dict(spec="Spec", constants=concrete_constants(alpha, d)), name, num=n, depth=d + 1)
+        hs = []
+        for fp in files:
+            h = parse_hist_state(open(fp).read())
+            if h and all(x in by_key for x in h):
+                hs.append(h)
+        if len(hs) < n // 2:
+            raise core.MachineryError("only %d histories parsed from %d simulated behaviours" % (len(hs), len(files)))
+        return hs
+    hists = simulate(al, nsim, depth, "histories")
+    # histories for the multi-threaded replays: quick = short ones over the calls where threads can matter (40x48 rasters,
+    # Dask graphs), generated by TLC the same way; thorough = a subset of the long ones above
+    tal = [a for a in al if a["sig"].endswith("Big") or a["backend"] == "dask"]
+    if ctx.tier == "thorough" or len(tal) < 3:
+        nsub = ctx.pick(min(4, len(hists)), 64)
+        sub, sub16 = hists[:nsub], hists[::-1][:nsub]
+    else:
+        th = simulate(tal, 4, 7, "thread_histories")
+        sub, sub16 = th[:2], th[2:4]
     # exhaustive ordered pairs over a small cheap alphabet, enumerated by TLC (thorough)
     pair_hists = []
     if ctx.tier == "thorough":
@@ -318,7 +370,7 @@ def replay_part(ctx, rng, focus):
             raise core.MachineryError("expected %d ordered pairs from TLC, got %d" % (len(small) ** 2, len(pair_hists)))
         pair_hists = [list(h) for h in pair_hists]
 
-    used = sorted({x for h in hists + pair_hists for x in h})
+    used = sorted({x for h in hists + sub + sub16 + pair_hists for x in h})
     ctx.extra["alphabet"] = len(al)
 
     def judge(results, name):
@@ -327,12 +379,12 @@ def replay_part(ctx, rng, focus):
         handle(ctx, results, cases, v, name)
         return cases
 
-    nsub = ctx.pick(8, 64)
-    sub = hists[:nsub]
-    sub16 = hists[::-1][:nsub]
     allh = hists + sub + sub16 + pair_hists
     thr = [1] * len(hists) + [4] * len(sub) + [16] * len(sub16) + [1] * len(pair_hists)
-    cache, allres = run_all(ctx, [by_key[x] for x in used], ctx.pick(1, 2), allh, thr, by_key)
+    # references: thorough = every distinct call ALONE in its own fresh interpreter, twice; quick = fresh interpreters shared
+    # by calls of different module families (reference_groups)
+    cache, allres = run_all(ctx, [by_key[x] for x in used], ctx.pick(1, 2), allh, thr, by_key,
+                            grouped=(ctx.tier != "thorough"))
     ctx.extra["distinct_calls_with_fresh_reference"] = len(cache)
     library_unchanged(ctx, fp0)
     n1, n4, n16 = len(hists), len(sub), len(sub16)
@@ -345,7 +397,8 @@ def replay_part(ctx, rng, focus):
     judge(allres[n1 + n4:n1 + n4 + n16], "histories_16_threads")
     if pair_hists:
         judge(allres[n1 + n4 + n16:], "all_ordered_pairs")
-    ctx.extra["histories"] = {"simulated": len(hists), "depth": depth, "threads_4": len(sub), "threads_16": len(sub),
+    ctx.extra["histories"] = {"simulated": len(hists), "depth": depth, "threads_4": len(sub), "threads_16": len(sub16),
+                              "reference_mode": "shared by families" if ctx.tier != "thorough" else "alone, twice",
                               "exhaustive_pairs": len(pair_hists)}
 
     keys = {}
